@@ -93,7 +93,7 @@ def alphabet(spec, tier):
         outs = [None, ['succeeded'], ['started'], ['submitted'], ['failed']]
         outs += [[c] for c in custom]
         if spec.get('budget', 1) > 1:
-            outs = [None, ['succeeded'], ['started'], ['failed']]
+            outs = [['started'], ['failed']]
         elif tier == 'thorough':
             outs += [['expired'], ['submit-failed']]
             outs += [[c, 'succeeded'] for c in custom]
